@@ -1,3 +1,4 @@
+import io
 import os
 import pathlib
 from contextlib import contextmanager
@@ -82,7 +83,9 @@ class _StringSourceContentsOfConstStrAndExistingPath(StringSourceContents):
     @contextmanager
     def as_lines(self) -> ContextManager[Iterator[str]]:
         if self._contents_as_lines is None:
-            self._contents_as_lines = self._contents_as_str.splitlines(keepends=True)
+            # A line ends with new-line, and only with new-line, as when the text is read from a file.
+            # (str.splitlines also splits at form feed, line separator etc.)
+            self._contents_as_lines = list(io.StringIO(self._contents_as_str))
 
         yield iter(self._contents_as_lines)
 
